@@ -13,6 +13,7 @@
 #include "stir/Verbosity.h"
 #include <atomic>
 #include <cstdlib>
+#include <cstdio>
 #include <cstring>
 #include <new>
 #include <string>
@@ -66,11 +67,19 @@ note_alloc(std::size_t n)
 
 #ifdef C17_ASAN
 extern "C" int __sanitizer_install_malloc_and_free_hooks(void (*malloc_hook)(const volatile void*, size_t), void (*free_hook)(const volatile void*));
+extern "C" void __sanitizer_print_stack_trace();
 namespace c17 {
 inline void
 asan_malloc_hook(const volatile void*, size_t n)
 {
+  const bool first = alloc_state().active && n > alloc_state().limit && alloc_state().refused == 0;
   note_alloc(n);
+  if (first)
+    {
+      // the stack of the request goes to stderr: the isolating parent reads it to name the allocation site
+      std::fprintf(stderr, "C17-BIG-ALLOC %zu bytes requested at\n", n);
+      __sanitizer_print_stack_trace();
+    }
 }
 inline void
 asan_free_hook(const volatile void*)
